@@ -933,3 +933,158 @@ Proof.
     + intros _ x. rewrite upd_same. tauto.
     + intros s' Hs. apply upd_other. exact Hs.
 Qed.
+
+(* ---------- the iteration order of set arguments does not matter ---------- *)
+
+(* a and a' are the same argument up to the order in which the elements of its sets (at any
+   depth) are listed *)
+Inductive arg_perm : arg -> arg -> Prop :=
+| ap_refl a : arg_perm a a
+| ap_trans a b c : arg_perm a b -> arg_perm b c -> arg_perm a c
+| ap_set l l' : Permutation l l' -> arg_perm (ASet l) (ASet l')
+| ap_in_list l1 a a' l2 : arg_perm a a' -> arg_perm (AList (l1 ++ a :: l2)) (AList (l1 ++ a' :: l2))
+| ap_in_tuple l1 a a' l2 : arg_perm a a' -> arg_perm (ATuple (l1 ++ a :: l2)) (ATuple (l1 ++ a' :: l2))
+| ap_in_set l1 a a' l2 : arg_perm a a' -> arg_perm (ASet (l1 ++ a :: l2)) (ASet (l1 ++ a' :: l2)).
+
+(* the same for statements; the positional arguments of requires( *args) behave as a list *)
+Inductive stmt_perm : stmt -> stmt -> Prop :=
+| sp_refl s : stmt_perm s s
+| sp_newjob j a a' sc : arg_perm a a' -> stmt_perm (NewJob j a sc) (NewJob j a' sc)
+| sp_newseq q its a a' sc : arg_perm a a' -> stmt_perm (NewSeq q its a sc) (NewSeq q its a' sc)
+| sp_newsched s its a a' sc : arg_perm a a' -> stmt_perm (NewSched s its a sc) (NewSched s its a' sc)
+| sp_requires j l l' rm : arg_perm (AList l) (AList l') -> stmt_perm (Requires j l rm) (Requires j l' rm)
+| sp_seqrequires q l l' : arg_perm (AList l) (AList l') -> stmt_perm (SeqRequires q l) (SeqRequires q l').
+
+(* same exception; when there is none, equivalent states *)
+Definition weak_equiv (o1 o2 : state * option error) : Prop :=
+  snd o1 = snd o2 /\ (snd o1 = None -> st_equiv (fst o1) (fst o2)).
+
+Lemma flat_map_ctx_perm (f : arg -> list nat) l1 a a' l2 :
+  Permutation (f a) (f a') ->
+  Permutation (flat_map f (l1 ++ a :: l2)) (flat_map f (l1 ++ a' :: l2)).
+Proof.
+  intros H. rewrite !flat_map_app. cbn [flat_map]. apply Permutation_app_head.
+  apply Permutation_app_tail. exact H.
+Qed.
+
+Lemma names_perm sq a a' : arg_perm a a' -> Permutation (names sq a) (names sq a').
+Proof.
+  induction 1 as [a|a b c _ IH1 _ IH2|l l' Hp|l1 a a' l2 _ IH|l1 a a' l2 _ IH|l1 a a' l2 _ IH].
+  - apply Permutation_refl.
+  - eapply perm_trans; eassumption.
+  - cbn [names]. apply Permutation_flat_map. exact Hp.
+  - cbn [names]. apply flat_map_ctx_perm. exact IH.
+  - cbn [names]. apply flat_map_ctx_perm. exact IH.
+  - cbn [names]. apply flat_map_ctx_perm. exact IH.
+Qed.
+
+Lemma perm_seteq l l' : Permutation l l' -> seteq l l'.
+Proof.
+  intros H x. split; apply Permutation_in; [exact H|apply Permutation_sym; exact H].
+Qed.
+
+Lemma error_eq (e e' : option error) : (e = None <-> e' = None) -> e = e'.
+Proof. destruct e as [[]|], e' as [[]|]; intros [H1 H2]; try reflexivity;
+  [discriminate (H2 eq_refl)|discriminate (H1 eq_refl)]. Qed.
+
+Lemma doc_req_perm self rm ns ns' r r' : Permutation ns ns' -> seteq r r' ->
+  snd (doc_req self rm ns r) = snd (doc_req self rm ns' r') /\
+  (snd (doc_req self rm ns r) = None ->
+   seteq (fst (doc_req self rm ns r)) (fst (doc_req self rm ns' r'))).
+Proof.
+  intros Hp Hr. destruct rm; cbn [doc_req fst snd].
+  - assert (Hok : snd (doc_remove ns r) = None <-> snd (doc_remove ns' r') = None).
+    { rewrite !doc_remove_ok. split; intros [N I]; split.
+      - eapply Permutation_NoDup; eassumption.
+      - intros x Hx. apply Hr. apply I. eapply Permutation_in; [apply Permutation_sym|]; eassumption.
+      - eapply Permutation_NoDup; [apply Permutation_sym|]; eassumption.
+      - intros x Hx. apply Hr. apply I. eapply Permutation_in; eassumption. }
+    split; [apply error_eq; exact Hok|].
+    intros H x. rewrite (doc_remove_In _ _ H), (doc_remove_In _ _ (proj1 Hok H)).
+    rewrite (Hr x), (perm_seteq _ _ Hp x). tauto.
+  - split; [reflexivity|]. intros _. apply doc_add_seteq; [apply perm_seteq; exact Hp|exact Hr].
+Qed.
+
+Lemma weak_of_out o o' : out_equiv o o' -> weak_equiv o o'.
+Proof. intros [H1 H2]. split; [exact H2|intros _; exact H1]. Qed.
+
+Lemma weak_out_trans o1 o2 o3 : weak_equiv o1 o2 -> out_equiv o2 o3 -> weak_equiv o1 o3.
+Proof.
+  intros [A1 A2] [B1 B2]. split; [congruence|]. intros H. eapply st_equiv_trans; [apply A2; exact H|exact B1].
+Qed.
+
+Lemma doc_requires_perm st j ns ns' rm : Permutation ns ns' ->
+  weak_equiv (doc_requires st j ns rm) (doc_requires st j ns' rm).
+Proof.
+  intros Hp. unfold doc_requires.
+  destruct (doc_req_perm j rm ns ns' (req st j) (req st j) Hp (seteq_refl _)) as [H1 H2].
+  destruct (doc_req j rm ns (req st j)) as [r e], (doc_req j rm ns' (req st j)) as [r' e'].
+  cbn [fst snd] in *. split; [exact H1|]. intros He.
+  split; cbn; intros; try reflexivity; try apply seteq_refl.
+  apply seteq_upd; [intros; apply seteq_refl|apply H2; exact He].
+Qed.
+
+Lemma names_list_perm sq l l' : arg_perm (AList l) (AList l') ->
+  Permutation (names_list sq l) (names_list sq l').
+Proof. intros H. apply (names_perm sq _ _ H). Qed.
+
+Lemma step_doc_perm_same st s s' : stmt_perm s s' -> weak_equiv (step_doc st s) (step_doc st s').
+Proof.
+  intros H. destruct H as [s|j a a' sc Ha|q its a a' sc Ha|s its a a' sc Ha|j l l' rm Hl|q l l' Hl];
+    cbn [step_doc].
+  - apply weak_of_out. apply out_equiv_refl.
+  - split; [reflexivity|]. intros _. cbn [fst]. apply doc_register_equiv; [|apply seteq_refl].
+    split; cbn; intros; try reflexivity; try apply seteq_refl.
+    apply seteq_upd; [intros; apply seteq_refl|].
+    apply doc_add_seteq; [apply perm_seteq; apply names_perm; exact Ha|apply seteq_refl].
+  - split; [reflexivity|]. intros _. cbn [fst]. apply doc_register_equiv; [|apply seteq_refl].
+    split; cbn [req members seqs seq_sched]; intros; try reflexivity; try apply seteq_refl.
+    destruct (flat (seqs st) its) as [|first t]; [apply seteq_refl|].
+    apply seteq_upd; [intros; apply seteq_refl|].
+    apply doc_add_seteq; [apply perm_seteq; apply names_perm; exact Ha|apply seteq_refl].
+  - split; [reflexivity|]. intros _. cbn [fst]. apply doc_register_equiv; [|apply seteq_refl].
+    split; cbn; intros; try reflexivity; try apply seteq_refl.
+    apply seteq_upd; [intros; apply seteq_refl|].
+    apply doc_add_seteq; [apply perm_seteq; apply names_perm; exact Ha|apply seteq_refl].
+  - apply doc_requires_perm. apply names_list_perm. exact Hl.
+  - destruct (seqs st q) as [|first t]; [apply weak_of_out; apply out_equiv_refl|].
+    apply doc_requires_perm. apply names_list_perm. exact Hl.
+Qed.
+
+Lemma exec_doc_perm p p' : Forall2 stmt_perm p p' -> forall st st', st_equiv st st' ->
+  weak_equiv (exec step_doc p st) (exec step_doc p' st').
+Proof.
+  induction 1 as [|s s' p p' Hs _ IH]; intros st st' E; cbn [exec].
+  - split; [reflexivity|intros _; exact E].
+  - pose proof (weak_out_trans _ _ _ (step_doc_perm_same st s s' Hs) (step_doc_proper st st' s' E))
+      as [H1 H2].
+    destruct (step_doc st s) as [st1 e1], (step_doc st' s') as [st1' e1']. cbn [fst snd] in *.
+    subst e1'. destruct e1 as [e|].
+    + split; [reflexivity|discriminate].
+    + apply IH. apply H2. reflexivity.
+Qed.
+
+(* listing the elements of the set arguments of a program in another order changes neither
+   whether (and where) it raises, nor, when it does not raise, any required set, scheduler or
+   sequence *)
+Theorem C19_set_order_main p p' : Forall2 stmt_perm p p' ->
+  snd (exec_code p) = snd (exec_code p') /\
+  (snd (exec_code p) = None -> st_equiv (fst (exec_code p)) (fst (exec_code p'))).
+Proof.
+  intros H. destruct (exec_doc_perm p p' H empty_state empty_state (st_equiv_refl _)) as [D1 D2].
+  destruct (C19_agree_main p) as [A1 A2]. destruct (C19_agree_main p') as [B1 B2].
+  fold (exec_doc p) in D1, D2. fold (exec_doc p') in D1, D2.
+  split; [congruence|]. intros Hn.
+  eapply st_equiv_trans; [exact A1|]. eapply st_equiv_trans; [apply D2; congruence|].
+  apply st_equiv_sym. exact B1.
+Qed.
+
+(* the partial effect of a failing remove may depend on the order: with required = {1, 2},
+   removing the set {1, 3} listed as [1; 3] leaves {2}, listed as [3; 1] leaves {1, 2} *)
+Example set_order_partial_effect :
+  let pre := [NewJob 1 ANone None; NewJob 2 ANone None; NewJob 0 (AList [AJob 1; AJob 2]) None] in
+  let p := pre ++ [Requires 0 [ASet [AJob 1; AJob 3]] true] in
+  let p' := pre ++ [Requires 0 [ASet [AJob 3; AJob 1]] true] in
+  snd (exec_code p) = Some KeyError /\ snd (exec_code p') = Some KeyError /\
+  req (fst (exec_code p)) 0 = [2] /\ req (fst (exec_code p')) 0 = [1; 2].
+Proof. vm_compute. repeat split. Qed.
